@@ -232,3 +232,10 @@ def r6(c):
     from rules import c07
     pre = ('rodbus::types::', '<rodbus::types::', 'rodbus::client::requests::', '<rodbus::client::requests::', 'rodbus::client::message::', '<rodbus::client::message::')
     c07.inventory(c, only=lambda f: f.startswith(pre), floor=8)
+
+
+@rule('C04', 'R04.7', 'C ABI flavour: an exception reply reaches the C callback under its own code - the enum conversion tables (C18/R18.1)',
+      needs=lambda P: 'rodbus_ffi' in P.crates)
+def r7(c):
+    from rules import c18
+    c18.r1(c)
